@@ -5,7 +5,7 @@ CONSTANTS MaxLen = 0
  Source = "env"
 INIT Init
 NEXT Next
-VIEW ViewSched
+VIEW ViewLen
 ACTION_CONSTRAINT Dump
 INVARIANT InvSharedIncColoured
 INVARIANT InvColoursSequential
